@@ -10,20 +10,30 @@ TRUSTED = ["model: coq/Model/NameM.v (fullcompare, __hash__, relativize/derelati
 
 def cases(ctx):
     rng = ctx.rng
-    n = ctx.n(700, 40000)
-    for _ in range(n):
+    ctx.notes["exhaustive"] = True
+    ctx.notes["exhaustive_scope"] = (
+        "successor/predecessor: every octet value 0..255 as the rightmost non-0xff octet of the least-significant "
+        "label x trailing 0xff runs {0,1,2,5} x shapes {63-octet label, name at 255 octets, all-0xff label chopped, "
+        "chop inside a maximal name, extendable label} x prefix_ok; predecessor: every last octet x {1,2,63-octet "
+        "labels, 0x00 runs, \\000 label below, maximal name} (oracle on all; model comparison on all in the thorough "
+        "tier, on a fixed subset in the quick tier)"
+    )
+    n = ctx.n(700, 60000)
+    n_model = ctx.n(700, 9000)  # random triples beyond this many are oracle-only (kind suffix -o)
+    for it in range(n):
         a = nl.gen_labels(rng)
         b = nl.related(rng, a) if rng.random() < 0.8 else nl.gen_labels(rng)
         c = nl.related(rng, b) if rng.random() < 0.7 else nl.related(rng, a)
         if not (nl.fits(a) and nl.fits(b) and nl.fits(c)):
             continue
-        yield "cmp", [2, a, b]
-        yield "cmp", [2, b, c]
-        yield "cmp", [2, a, c]
+        sfx = "" if it < n_model else "-o"
+        yield "cmp" + sfx, [2, a, b]
+        yield "cmp" + sfx, [2, b, c]
+        yield "cmp" + sfx, [2, a, c]
         yield "triple", [20, a, b, c]
-        yield "hash", [3, a]
-        yield "hash", [3, nl.case_variant(rng, a)]
-    for _ in range(ctx.n(400, 20000)):
+        yield "hash" + sfx, [3, a]
+        yield "hash" + sfx, [3, nl.case_variant(rng, a)]
+    for _ in range(ctx.n(400, 5000)):
         a = nl.gen_labels(rng)
         ro = rng.random()
         if ro < 0.75:
@@ -44,7 +54,7 @@ def cases(ctx):
         yield "parent", [13, a]
         yield "choose", [16, a, o if rng.random() < 0.8 else None, rng.randrange(2)]
     # successor / predecessor: last octet sweeps, boundary lengths
-    for _ in range(ctx.n(300, 6000)):
+    for _ in range(ctx.n(300, 2500)):
         o = nl.gen_labels(rng, absolute=True, budget=rng.choice([5, 12, 60]))
         shape = rng.choice(["short", "l63", "max", "rand", "rel"])
         yield from succ_cases(rng, o, shape, rng.choice(nl.INTERESTING + [rng.randrange(256)]))
